@@ -7,6 +7,7 @@
                 regenerated parts (hand-written specification predicates, Jordan-Wigner matrices)
 -/
 import PomerolModel.Model.Symm
+import PomerolModel.Model.LatticeSpec
 import Driver.Util
 import Driver.Scalars
 
@@ -283,14 +284,81 @@ def groupCommands (lines : List String) : List (List String × List String) × B
       else go rest cur acc ended
   go lines none [] false
 
+/-- Hand-written specification verdict (Model/LatticeSpec.lean) for a lattice-building command on the current lattice:
+`some true` = the call is defined/valid, `some false` = it must be rejected, `none` = no statement. -/
+def specDefined (L : Lattice K) (cmd : List String) : Option Bool :=
+  match cmd with
+  | "term" :: _ :: _ :: n :: fs =>
+    let f := readFactors n.toNat! fs
+    let t : Term K := { ops := f.map (·.1), labels := f.map (·.2.1), orbs := f.map (·.2.2.1), spins := f.map (·.2.2.2), value := default }
+    some (LatSpec.validTerm L t)
+  | "preset" :: kind :: l :: rest =>
+    let l1 := unhexLabel l
+    if kind == "coulombS" || kind == "level" then some (LatSpec.definedOnSite L l1)
+    else if kind == "coulombP" || kind == "coulombP3" then some (LatSpec.definedCoulombP L l1)
+    else if kind == "magnetization" then some (LatSpec.definedMagnetization L l1)
+    else if kind == "szsz" || kind == "ss" then some (LatSpec.definedExchange L l1 (unhexLabel (rest.headD "")))
+    else if kind == "hop4" then some (LatSpec.definedHoppingAll L l1 (unhexLabel (rest.headD "")))
+    else if kind == "hop5" then
+      some (LatSpec.definedHoppingOrb L l1 (unhexLabel (rest.headD "")) (rest.getD 3 "0").toNat! (rest.getD 4 "0").toNat!)
+    else if kind == "hop6" then
+      some (LatSpec.definedHoppingFull L l1 (unhexLabel (rest.headD "")) (rest.getD 3 "0").toNat! (rest.getD 4 "0").toNat!
+        (rest.getD 5 "0").toNat! (rest.getD 5 "0").toNat!)
+    else if kind == "hop7" then
+      some (LatSpec.definedHoppingFull L l1 (unhexLabel (rest.headD "")) (rest.getD 3 "0").toNat! (rest.getD 4 "0").toNat!
+        (rest.getD 5 "0").toNat! (rest.getD 6 "0").toNat!)
+    else none
+  | "tpreset" :: _ :: l :: _ :: _ :: o1 :: o2 :: s1 :: s2 :: _ =>
+    -- the factory itself must reject equal orbitals/spins; the term must then also be valid for the site
+    if !LatSpec.definedSpinflip o1.toNat! o2.toNat! s1.toNat! s2.toNat! then some false
+    else
+      match LatSpec.siteOf L (unhexLabel l) with
+      | some st => some (decide (o1.toNat! < st.norb) && decide (o2.toNat! < st.norb) && decide (s1.toNat! < st.nspin) && decide (s2.toNat! < st.nspin))
+      | none => some false
+  | _ => none
+
 def replay (conjv : K → K) (half : K) (lines : List String) : IO Unit := do
   let (groups, ended) := groupCommands lines
   let mut st : St K := {}
   let mut tally : Driver.Tally := {}
   let mut idx := 0
+  let mut lastDump : List String := []
+  let mut mustBeUnchanged : Option String := none
   for (cmd, obs) in groups do
     idx := idx + 1
     let last := idx == groups.length
+    -- property oracle for the lattice input layer (C20), on the implementation's own outcomes
+    match specDefined st.L cmd with
+    | some defined =>
+      let implOk := obs == ["o ok"]
+      let implExc := obs.any (·.startsWith "o exc")
+      if !defined && implOk then
+        IO.println s!"PROPFAIL[C20] cmd#{idx} {" ".intercalate (cmd.take 12)} :: accepted although the call is undefined/invalid for this lattice"
+        tally := tally.pfail
+      if implExc then mustBeUnchanged := some (" ".intercalate (cmd.take 12))
+    | none => pure ()
+    if cmd == ["dumplattice"] then
+      match mustBeUnchanged with
+      | some c =>
+        if obs != lastDump then
+          IO.println s!"PROPFAIL[C20] cmd#{idx} a rejected call ({c}) changed the lattice"
+          tally := tally.pfail
+      | none => pure ()
+      lastDump := obs
+      mustBeUnchanged := none
+    match cmd with
+    | ["getsite", lab] =>
+      -- returns the site added under that label, fails for unknown labels
+      match LatSpec.siteOf st.L (unhexLabel lab) with
+      | some stt =>
+        if obs != [s!"o ok {hexLabel stt.label} {stt.norb} {stt.nspin}"] then
+          IO.println s!"PROPFAIL[C20] cmd#{idx} getsite {lab} :: known site not returned ({obs})"
+          tally := tally.pfail
+      | none =>
+        if !(obs.any (·.startsWith "o exc")) then
+          IO.println s!"PROPFAIL[C20] cmd#{idx} getsite {lab} :: unknown label did not fail ({obs})"
+          tally := tally.pfail
+    | _ => pure ()
     match exec conjv half st cmd with
     | none =>
       tally := tally.bump "unmodelled"
